@@ -352,17 +352,66 @@ func globalWrites(p *Prog, pkgs ...string) []globalWrite {
 		if fn.Name() == "init" || strings.HasPrefix(fn.Name(), "init#") {
 			continue
 		}
-		fromGlobal := func(v ssa.Value) (string, bool) {
-			name := ""
-			ok := derivesFrom(v, func(x ssa.Value) bool {
-				if g, isG := x.(*ssa.Global); isG && g.Pkg != nil && strings.HasPrefix(g.Pkg.Pkg.Path(), repoModule) {
-					name = g.Name()
-					return true
-				}
-				return false
-			}, 0)
-			return name, ok
+		// fromGlobal: the address (or map / slice / pointer) designates storage reachable from a package-level
+		// variable of the repository. Reading a global yields a copy unless the value read is itself a
+		// reference (pointer, slice, map, channel, function, interface); only addresses are followed.
+		isRef := func(t types.Type) bool {
+			switch t.Underlying().(type) {
+			case *types.Pointer, *types.Slice, *types.Map, *types.Chan, *types.Signature, *types.Interface:
+				return true
+			}
+			return false
 		}
+		var walk func(v ssa.Value, depth int) (string, bool)
+		walk = func(v ssa.Value, depth int) (string, bool) {
+			if depth > 12 || v == nil {
+				return "", false
+			}
+			switch x := v.(type) {
+			case *ssa.Global:
+				if x.Pkg != nil && strings.HasPrefix(x.Pkg.Pkg.Path(), repoModule) {
+					return x.Name(), true
+				}
+			case *ssa.FieldAddr:
+				return walk(x.X, depth+1)
+			case *ssa.IndexAddr:
+				return walk(x.X, depth+1)
+			case *ssa.Slice:
+				return walk(x.X, depth+1)
+			case *ssa.UnOp:
+				if x.Op == token.MUL && isRef(x.Type()) { // a reference loaded from shared storage
+					return walk(x.X, depth+1)
+				}
+			case *ssa.Field:
+				if isRef(x.Type()) {
+					return walk(x.X, depth+1)
+				}
+			case *ssa.Lookup:
+				if isRef(x.Type()) {
+					return walk(x.X, depth+1)
+				}
+			case *ssa.Extract:
+				if lk, ok := x.Tuple.(*ssa.Lookup); ok && isRef(x.Type()) {
+					return walk(lk.X, depth+1)
+				}
+			case *ssa.Phi:
+				for _, e := range x.Edges {
+					if g, ok := walk(e, depth+1); ok {
+						return g, true
+					}
+				}
+			case *ssa.ChangeType:
+				return walk(x.X, depth+1)
+			case *ssa.Convert:
+				return walk(x.X, depth+1)
+			case *ssa.MakeInterface:
+				return walk(x.X, depth+1)
+			case *ssa.TypeAssert:
+				return walk(x.X, depth+1)
+			}
+			return "", false
+		}
+		fromGlobal := func(v ssa.Value) (string, bool) { return walk(v, 0) }
 		for _, b := range fn.Blocks {
 			for _, ins := range b.Instrs {
 				switch x := ins.(type) {
@@ -374,9 +423,63 @@ func globalWrites(p *Prog, pkgs ...string) []globalWrite {
 					if g, ok := fromGlobal(x.Map); ok {
 						out = append(out, globalWrite{fn, g, x.Pos(), "map update"})
 					}
+				case *ssa.Call:
+					// sync.Map / sync.Pool / atomic values at package level are shared mutable state too
+					if callee := x.Call.StaticCallee(); callee != nil && callee.Pkg != nil && len(x.Call.Args) > 0 {
+						if pp := callee.Pkg.Pkg.Path(); pp == "sync" || pp == "sync/atomic" {
+							switch callee.Name() {
+							case "Store", "LoadOrStore", "LoadAndDelete", "Delete", "Swap", "CompareAndSwap", "CompareAndDelete", "Put", "Add", "Range", "Clear":
+								if g, ok := fromGlobal(x.Call.Args[0]); ok {
+									out = append(out, globalWrite{fn, g, x.Pos(), "sync/atomic update"})
+								}
+							}
+						}
+					}
 				}
 			}
 		}
 	}
 	return out
+}
+
+// stateRule: nothing reachable from the given entry points writes package-level state of the repository
+// (a store to a global, an update of a map or sync.Map reachable from one): a result then depends on
+// nothing but the arguments, and calls cannot interfere with one another.
+func stateRule(p *Prog, rp *Report, id string, roots ...*ssa.Function) {
+	r := rp.Rule(id, "no entry point of this property writes package-level state: results depend only on the arguments", 1)
+	onPath := map[*ssa.Function]bool{}
+	var names []string
+	for _, root := range roots {
+		if root == nil {
+			continue
+		}
+		names = append(names, fname(root))
+		for _, f := range reachableRepoFuncs(root) {
+			onPath[f] = true
+		}
+	}
+	if len(onPath) == 0 {
+		r.undecided("entry points", "", "none of the entry points was found")
+		return
+	}
+	pkgs := map[string]bool{}
+	for f := range onPath {
+		pkgs[shortPkg(f)] = true
+	}
+	var plist []string
+	for k := range pkgs {
+		plist = append(plist, k)
+	}
+	sort.Strings(plist)
+	n := 0
+	for _, w := range globalWrites(p, plist...) {
+		if !onPath[w.Fn] {
+			continue
+		}
+		n++
+		r.bad(shortPkg(w.Fn)+":"+w.G+":writer("+fname(w.Fn)+")", p.Pos(w.Pos), w.How+" of the package-level variable "+w.G+": what a call returns can depend on earlier calls, and concurrent calls share mutable state", nil)
+	}
+	if n == 0 {
+		r.ok(strings.Join(names, ", "), "", fmt.Sprintf("%d functions reachable from the entry points: none stores to a package-level variable or updates a map / sync.Map reachable from one", len(onPath)))
+	}
 }
